@@ -9,3 +9,5 @@ import (
 )
 
 func verifGate(point string, fn jtypes.Callable, ctx reflect.Value) {}
+
+func verifEval(e *Expr, data interface{}) {}
